@@ -103,15 +103,24 @@ class WSGIWrapper:
             ]
             response_started = True
 
+        def send_response_start() -> None:
+            if not response_started:
+                raise RuntimeError("WSGI app did not call start_response")
+            send({"type": "http.response.start", "status": status_code, "headers": headers})
+
         response_body = self.app(environ, start_response)
 
-        if not response_started:
-            raise RuntimeError("WSGI app did not call start_response")
-
-        send({"type": "http.response.start", "status": status_code, "headers": headers})
         try:
+            # PEP 3333, start_response may be called as late as the
+            # first iteration of the response body (e.g. a generator).
+            first_chunk = True
             for output in response_body:
+                if first_chunk:
+                    send_response_start()
+                    first_chunk = False
                 send({"type": "http.response.body", "body": output, "more_body": True})
+            if first_chunk:
+                send_response_start()
         finally:
             if hasattr(response_body, "close"):
                 response_body.close()
